@@ -290,6 +290,9 @@ impl<'tcx> Ex<'tcx> {
         let mut extra = String::new();
         if let Const::Unevaluated(u, _) = c.const_ {
             let _ = write!(extra, ",\"uneval\":{}", esc(&self.path_args(u.def, u.args)));
+            if let Some(p) = u.promoted {
+                let _ = write!(extra, ",\"promoted\":{}", esc(&format!("{}::promoted[{}]", self.id(u.def), p.as_usize())));
+            }
         }
         if let ty::FnDef(def, args) = cty.kind() {
             let callee = self.callee(*def, args, env);
@@ -690,7 +693,7 @@ impl<'tcx> Ex<'tcx> {
         }
     }
 
-    fn body(&mut self, def_id: DefId, body: &Body<'tcx>) -> String {
+    fn body(&mut self, def_id: DefId, body: &Body<'tcx>, promoted: Option<usize>) -> String {
         let tcx = self.tcx;
         let env = TypingEnv::post_analysis(tcx, def_id);
         let mut o = String::new();
@@ -699,7 +702,11 @@ impl<'tcx> Ex<'tcx> {
             Some(n) => esc(n.as_str()),
             None => "null".into(),
         };
-        let _ = write!(o, "{{\"id\":{},\"def\":{},\"kind\":{},\"name\":{}", esc(&self.id(def_id)), esc(&self.path(def_id)), esc(&kind), name);
+        let (idstr, kind) = match promoted {
+            Some(i) => (format!("{}::promoted[{}]", self.id(def_id), i), "Promoted".to_string()),
+            None => (self.id(def_id), kind),
+        };
+        let _ = write!(o, "{{\"id\":{},\"def\":{},\"kind\":{},\"name\":{}", esc(&idstr), esc(&self.path(def_id)), esc(&kind), name);
         // visibility (only for fns)
         let vis = match tcx.def_kind(def_id) {
             DefKind::Fn | DefKind::AssocFn => {
@@ -739,6 +746,26 @@ impl<'tcx> Ex<'tcx> {
         let module = tcx.parent_module_from_def_id(parent.expect_local()).to_def_id();
         let _ = write!(o, ",\"module\":{}", esc(&self.path(module)));
         let _ = write!(o, ",\"span\":{}", self.span(body.span, false));
+        // type parameters in substitution order (parents first): lets the rule engine instantiate
+        // calls made through a type parameter from the callers' type arguments
+        let mut gnames: Vec<String> = Vec::new();
+        {
+            let mut chain = Vec::new();
+            let mut cur = Some(def_id);
+            while let Some(d) = cur {
+                let g = tcx.generics_of(d);
+                chain.push(g);
+                cur = g.parent;
+            }
+            for g in chain.iter().rev() {
+                for p in g.own_params.iter() {
+                    if matches!(p.kind, ty::GenericParamDefKind::Type { .. }) {
+                        gnames.push(esc(p.name.as_str()));
+                    }
+                }
+            }
+        }
+        let _ = write!(o, ",\"generics\":{}", jlist(&gnames));
         let _ = write!(o, ",\"argc\":{}", body.arg_count);
         // locals
         let mut locals = Vec::new();
@@ -1078,7 +1105,10 @@ impl Callbacks for Cb {
                 continue;
             }
             let body = tcx.optimized_mir(did);
-            bodies.push(ex.body(did, body));
+            bodies.push(ex.body(did, body, None));
+            for (pi, pbody) in tcx.promoted_mir(did).iter_enumerated() {
+                bodies.push(ex.body(did, pbody, Some(pi.as_usize())));
+            }
         }
         let adts = ex.adts();
         let impls = ex.impls();
